@@ -48,7 +48,8 @@ func (r RawTime) Value() (t time.Time, valid bool) {
 type RawDeltaSeconds string
 
 func (r RawDeltaSeconds) Value() (dur time.Duration, valid bool) {
-	if len(r) == 0 || r[0] == '-' {
+	// delta-seconds = 1*DIGIT (RFC 9111 §1.2.2): no sign, neither '-' nor '+' (which ParseInt accepts)
+	if len(r) == 0 || r[0] < '0' || r[0] > '9' {
 		return
 	}
 	seconds, err := strconv.ParseInt(string(r), 10, 64)
